@@ -182,9 +182,12 @@ func runSeq(ctx *core.Ctx, p *seqProp) {
 			}
 		}
 		impl.SetGlobals(p.Legacy, p.UseDefaults, opt)
-		if p.PkgLimit != 0 && !p.Legacy && !p.UseDefaults {
-			impl.SetV5PackageLimit(p.PkgLimit)
-			defer impl.SetV5PackageLimit(0)
+		if !p.Legacy && !p.UseDefaults {
+			// per-call options must take precedence over the package defaults in every respect:
+			// every per-call phase runs with the defaults set to the opposite
+			restore := impl.SetV5HostileDefaults(opt)
+			defer restore()
+			ctx.Rep.Extra["v5_package_defaults_during_per_call_phases"] = "set to the opposite of the per-call options (SupportNegativeIndices negated, AccumulatedCopySizeLimit=1)"
 		}
 		ctx.Parallel(len(units), func(w *core.Worker, i int) {
 			u := units[i]
